@@ -19,8 +19,10 @@ from ..impl import run_impl
 from ..model import run_model
 from . import _adaptive as A
 from . import _legs as LG
+from . import _c13_gen
 
 ASSUMPTIONS = [
+    _c13_gen.ASSUMPTION,
     'max_time (wall clock) stopping condition is not modelled and never used',
     'defaults of the entry points (tol 10**-2 / 10**-3, min_evaluations 1, max_evaluations None) are constants of the model and of the predicate',
     'evaluation_points: analytic reference evaluations (operation.eval_analytic) are not counted as integrand evaluations of the quadrature; '
@@ -764,7 +766,9 @@ def check_std(chk, case, r, mjobs):
 
 
 def run(chk):
-    chk.coq_obligations()
+    gen_info = _c13_gen.regenerate(chk)      # source-derived driver loop: regenerated BEFORE the obligations are rebuilt
+    chk.coq_obligations(extra_props=_c13_gen.EXTRA_PROPS)
+    gen_problem = _c13_gen.diagnose(chk, gen_info)
     n = chk.n(300, 4000)
     cases = CORPUS + [gen_case(chk.rng, chk.quick) for _ in range(n)]
     impl = run_impl(impl_run, cases, limit=150)
@@ -849,6 +853,7 @@ def run(chk):
     mres = run_model(13, mjobs)
     for ev in todo:
         ev(mres)
+    _c13_gen.finish(chk, gen_info, gen_problem)     # broken source-derived obligation and no concrete failing input found above
     chk.record_cases(len(cases), keys,
                      'probe run + test HISTORY (performSpatiallyAdaptiv followed by 0-3 continue_adaptive_refinement calls on the same object, limits '
                      'drawn independently per call: on observed errors / point counts, 0, tighter / looser / equal, arguments left implicit) of '
